@@ -1,6 +1,6 @@
 (* Non-vacuity: concrete, non-trivial values meeting the hypotheses of every theorem. *)
 From Coq Require Import String.
-From V Require Import Common.Base C15.Names C15.Renamer C15.Spec C15.NamesProofs C15.MinifyProofs C15.Harness.
+From V Require Import Common.Base C15.Names C15.Renamer C15.Spec C15.NamesProofs C15.MinifyProofs C15.ResolveProofs C15.Harness.
 
 Example minname_ex : map (NumberToMinifiedName default_minifier) [0; 1; 53; 54; 55; 54 + 54 * 64; 1000000]
   = [[97]; [98]; [36]; [97;97]; [98;97]; [97;97;97]; [67;118;71;100]].
@@ -76,9 +76,21 @@ Example chunk_ex :
   end = [nm "a"; nm "b"; nm "c"].
 Proof. vm_compute. reflexivity. Qed.
 
-(* a pinned symbol on a direct-eval chain is reserved *)
+(* a symbol pinned in a nested scope that no direct eval reaches (e.g. referenced in `with`) is reserved *)
 Definition ev_syms : symtab := mk_symtab [(nm "g", 4, -1, false, 0, 0); (nm "a", 4, -1, false, 0, 1); (nm "q", 0, -1, false, 0, 2)]%Z.
-Definition ev_module : scope := Scope [0%nat] [] None true [Scope [1%nat] [] None true [Scope [2%nat] [] None false []]].
-Example eval_reach_ex : eval_reach_decls ev_module = [0%nat; 1%nat]
+Definition ev_module : scope := Scope [0%nat] [] None false [Scope [1%nat] [] None false [Scope [2%nat] [] None false []]].
+Example tree_decls_ex : tree_decls ev_module = [0%nat; 1%nat; 2%nat]
   /\ mem_name (nm "a") (ComputeReservedNames ev_syms [ev_module]) = true.
 Proof. vm_compute. auto. Qed.
+
+(* resolution on the innermost visibility list of the first nested tree of the number example:
+   "x" resolves to the nested symbol 2 before, and its new name "x4" resolves to it after *)
+Example resolve_ex :
+  match number_rename 100 ex_syms ex_reserved ex_top ex_nested with
+  | Some names =>
+      let v := [4; 2; 3; 4; 0; 0; 5]%nat in
+      (resolve v (fun t => sy_name (getsym ex_syms t)) (nm "x"),
+       resolve v (number_name_for ex_syms names) (nm "x4"))
+  | None => (None, None)
+  end = (Some 2%nat, Some 2%nat).
+Proof. vm_compute. reflexivity. Qed.
